@@ -135,6 +135,11 @@ func (p *Path) intrinsic(caller *frame, fn *ssa.Function, name string, args []Va
 		p.lastJSON = args[0]
 		p.jsonCalls++
 		return Tuple{[]Value{smt.ConstBV(8, 'n'), smt.ConstBV(8, 'u'), smt.ConstBV(8, 'l'), smt.ConstBV(8, 'l')}, Iface{}}, true
+	case "(*os.File).Write":
+		// output to the process's real stdout/stderr is discarded (never a subject)
+		return Tuple{intConst(int64(len(args[1].([]Value)))), Iface{}}, true
+	case "(*os.File).WriteString":
+		return Tuple{p.strLen(args[1].(Str)), Iface{}}, true
 	case "os.Environ":
 		p.abortf("os.Environ reached without a stub")
 	case "runtime.KeepAlive", "runtime.SetFinalizer", "runtime.Gosched", "internal/race.Acquire", "internal/race.Release",
